@@ -132,6 +132,91 @@ pub mod q {
 
 #[cfg(feature = "c04_t")]
 pub mod t {
+    /// From an arbitrary valid representation state with a three-word
+    /// upper-bits vector (efstate.rs: N = 66, U = 100, every clustered
+    /// sequence inside). Oracles by witness: the element of a symbolic rank is
+    /// the position of the one of that rank minus the rank.
+    pub mod state {
+        use crate::ef_grid::log2_tab;
+        use crate::efstate::*;
+        use sux::prelude::*;
+
+        #[kani::proof]
+        #[kani::unwind(70)]
+        #[kani::stub(f64::log2, log2_tab)]
+        pub fn succ_from_any_state() {
+            let (ef, high) = any_state();
+            let q: usize = kani::any();
+            let strict: bool = kani::any();
+            let last = x_at(&high, N - 1);
+            let none = if strict { last <= q } else { last < q };
+            let r = if strict { ef.succ_strict(q) } else { ef.succ(q) };
+            match r {
+                None => assert!(none),
+                Some((j, v)) => {
+                    assert!(!none && j < N);
+                    assert_eq!(v, x_at(&high, j));
+                    assert!(if strict { v > q } else { v >= q });
+                    if j > 0 {
+                        let prev = x_at(&high, j - 1);
+                        assert!(if strict { prev <= q } else { prev < q });
+                    }
+                    kani::cover!(j > 0 && v >= 64 + x_at(&high, j - 1), "successor across an all-zero word of upper bits");
+                }
+            }
+            std::mem::forget(ef);
+        }
+
+        #[kani::proof]
+        #[kani::unwind(70)]
+        #[kani::stub(f64::log2, log2_tab)]
+        pub fn pred_from_any_state() {
+            let (ef, high) = any_state();
+            let q: usize = kani::any();
+            let strict: bool = kani::any();
+            let first = x_at(&high, 0);
+            let none = if strict { first >= q } else { first > q };
+            let r = if strict { ef.pred_strict(q) } else { ef.pred(q) };
+            match r {
+                None => assert!(none),
+                Some((j, v)) => {
+                    assert!(!none && j < N);
+                    assert_eq!(v, x_at(&high, j));
+                    assert!(if strict { v < q } else { v <= q });
+                    if j + 1 < N {
+                        let next = x_at(&high, j + 1);
+                        assert!(if strict { next >= q } else { next > q });
+                        kani::cover!(next >= v + 70 && q >= v + 69, "predecessor found two words before the bucket of the query");
+                    }
+                }
+            }
+            std::mem::forget(ef);
+        }
+
+        #[kani::proof]
+        #[kani::unwind(70)]
+        #[kani::stub(f64::log2, log2_tab)]
+        pub fn index_of_from_any_state() {
+            let (ef, high) = any_state();
+            let q: usize = kani::any();
+            let r = ef.index_of(q);
+            match r {
+                Some(j) => {
+                    assert!(j < N);
+                    assert_eq!(x_at(&high, j), q);
+                }
+                None => {
+                    // no rank holds q: universally quantified over the symbolic rank
+                    let j: usize = kani::any();
+                    kani::assume(j < N);
+                    assert!(x_at(&high, j) != q);
+                }
+            }
+            kani::cover!(r.is_some());
+            kani::cover!(r.is_none() && q < U);
+            std::mem::forget(ef);
+        }
+    }
     use crate::ef_grid_t;
     ef_grid_t!(ef_c04);
 }
